@@ -273,6 +273,19 @@ def letters(seed):
             k_random_gate([u3], p, 3), cls="RandomGateChannel(qutrit)", degenerate=p in (0.0, 1.0), core=1 if p == 0.5 else 0)
     add("RandomGate(depolarize(0.5),0.5)(a)", cirq.depolarize(0.5).with_probability(0.5).on(a), "k",
         k_random_gate(k_depolarize(0.5), 0.5, 2), cls="RandomGateChannel(mixture)")
+    # nested probabilistic wrappers are flattened by the constructor: the sub-gate is applied with the PRODUCT of the probabilities
+    # (asymmetric inner/outer values; both the fluent and the constructor form; unitary, Kraus and qutrit sub-gates)
+    for p_in, p_out in ((0.5, 0.4), (0.1, 1.0), (1.0, 0.25)):
+        pp = p_in * p_out
+        add(f"RandomGate(RandomGate(X^{g},{p_in}),{p_out})(a)", (cirq.X ** g).with_probability(p_in).with_probability(p_out).on(a), "k",
+            k_random_gate([xpow(g)], pp, 2), cls="RandomGateChannel(unitary)", core=1 if (p_in, p_out) == (0.5, 0.4) else 0)
+        add(f"RandomGate(sub=RandomGate(amplitude_damp(0.3),{p_in}),p={p_out})(b)",
+            cirq.RandomGateChannel(sub_gate=cirq.RandomGateChannel(sub_gate=cirq.amplitude_damp(0.3), probability=p_in),
+                                   probability=p_out).on(b), "k",
+            k_random_gate(k_amp_damp(0.3), pp, 2), cls="RandomGateChannel(kraus)")
+    add("RandomGate(RandomGate(RandomGate(U3,0.5),0.5),0.8)(t)",
+        cirq.MatrixGate(u3, qid_shape=(3,)).with_probability(0.5).with_probability(0.5).with_probability(0.8).on(t), "k",
+        k_random_gate([u3], 0.2, 3), cls="RandomGateChannel(qutrit)")
     sp1 = E.generic_state(2, seed + 40)
     sp2 = E.generic_state(4, seed + 41)
     add("StatePrep(a)", cirq.StatePreparationChannel(sp1.copy()).on(a), "k", k_state_prep(sp1), cls="StatePreparationChannel", core=1)
